@@ -211,13 +211,14 @@ class ListObj:
 class DictObj:
     """dict with a concrete number of entries (keys may be symbolic scalars), insertion ordered; `tail` optionally
     holds an LT of (key, value) pairs appended by an accumulating loop"""
-    __slots__ = ("entries", "tail")
+    __slots__ = ("entries", "tail", "distinct_keys")
 
-    def __init__(self, entries: List[Tuple[Any, Any]], tail=None) -> None:
+    def __init__(self, entries: List[Tuple[Any, Any]], tail=None, distinct_keys: bool = False) -> None:
         self.entries, self.tail = entries, tail
+        self.distinct_keys = distinct_keys  # the keys of the tail are known to be pairwise distinct (a dict parameter)
 
     def copy(self) -> "DictObj":
-        return DictObj(list(self.entries), self.tail)
+        return DictObj(list(self.entries), self.tail, self.distinct_keys)
 
 
 class Unsupported(Exception):
